@@ -2,7 +2,7 @@
 from framework import *
 from drivers import *
 
-INVS = ["Agreement", "AtMostOneMsg", "AtMostOneKey", "EntropyOnlyInStart", "RestoreEquivalent",
+INVS = ["TypeOK", "Agreement", "AtMostOneMsg", "AtMostOneKey", "EntropyOnlyInStart", "RestoreEquivalent",
         "NeverKeyForWrongSide", "KeyOnlyFromCanonical"]
 # (group, password classes (None = all), instances, restores): every interleaving
 QUICK_INTERLEAVED = [("i11", [1], 3, 1)]
@@ -108,7 +108,7 @@ def run(ctx):
         consts.update({"ParamSets": "<- MC_ParamSets", "Passwords": "<- MC_Passwords", "IdPairs": "<- MC_IdPairs",
                        "ClassSet": "<- MC_ClassSet", "MaxInst": "6", "MaxRestore": "3",
                        "ScalarChoices": "<- MC_ScalarChoices", "Attacker": "<- MC_Attacker"})
-        ctx.mc("MC_Big", cfg(constants=consts, invariants=["Agreement", "NoAgreementButFindings", "AtMostOneMsg", "AtMostOneKey",
+        ctx.mc("MC_Big", cfg(constants=consts, invariants=["TypeOK", "Agreement", "NoAgreementButFindings", "AtMostOneMsg", "AtMostOneKey",
                                                            "EntropyOnlyInStart", "NeverKeyForWrongSide", "KeyOnlyFromCanonical",
                                                            "RestoreEquivalent"], properties=["ScalarStable"]),
                label="MC_Big/simulate[%s, 6 instances, 3 restores, attacker]" % g,
